@@ -23,6 +23,7 @@ func checkC11(c *Ctx, r *Report) {
 	c11e(c, r)
 	c11f(c, r)
 	c11g(c, r)
+	c11Flows(c, r)
 }
 
 func c11a(c *Ctx, r *Report) {
@@ -304,13 +305,39 @@ func c11c(c *Ctx, r *Report, st *Staged) {
 				"`const NAME = code` pairs the Name and the Value of one identifier", "the emitted constant does not pair the Name and the Value of the same identifier")
 			// filter: TERMID and not a literal's temp name
 			filt := ""
+			var alt *SAlt
 			walkShape(sh, func(x Shape) {
 				if a, ok := x.(*SAlt); ok {
 					filt = a.CondPath
+					alt = a
 				}
 			})
-			r.Check(strings.Contains(filt, ".IDTyp == 1") && strings.Contains(filt, "!Parser.TestPrefix("), clause, "R1 PROVENANCE", b.name+".buildConstPart/filter", c.pos(pos),
-				"constants are emitted for named terminals only (IDTyp == TERMID, not a character literal)", "the constant block's filter is `"+filt+"`")
+			// exactly: IDTyp == TERMID ∧ ¬TestPrefix(Name) of the identifier whose constant is emitted, emitting arm = then
+			filtOK := false
+			if alt != nil && nameH != nil {
+				base := strings.TrimSuffix(nameH.Path, ".Name")
+				want := map[string]bool{base + ".IDTyp == 1": false, "!Parser.TestPrefix(" + base + ".Name)": false}
+				conj := splitTopLevelAnd(filt)
+				extra := false
+				for _, cj := range conj {
+					for len(cj) >= 2 && cj[0] == '(' && matchingParen(cj, 0) == len(cj)-1 {
+						cj = strings.TrimSpace(cj[1 : len(cj)-1])
+					}
+					if _, ok := want[cj]; ok {
+						want[cj] = true
+					} else {
+						extra = true
+					}
+				}
+				all := true
+				for _, v := range want {
+					all = all && v
+				}
+				emitsThen := strings.Contains(shapeString(alt.Then), "const ") && !strings.Contains(shapeString(alt.Else), "const ")
+				filtOK = all && !extra && len(conj) == 2 && emitsThen
+			}
+			r.Check(filtOK, clause, "R1 PROVENANCE", b.name+".buildConstPart/filter", c.pos(pos),
+				"constants are emitted exactly for named terminals (IDTyp == TERMID and not a character literal's temporary name)", "the constant block is not emitted exactly when `IDTyp == TERMID && !TestPrefix(Name)` holds for the identifier (condition `"+filt+"`)")
 		}
 		// translate
 		if sh, pos := fieldShapeOf(b.ev, "Translate"); sh != nil {
@@ -749,6 +776,56 @@ func c11g(c *Ctx, r *Report) {
 		r.Check(bad == "", clause, "R16 LOOP-CARRIED", key, c.pos(loop.Pos()),
 			fmt.Sprintf("%d path(s) through the loop body: every scalar the loop assigns (%v) is assigned before it is read in the same iteration — nothing recorded for a name depends on the names before it", len(paths), sortedKeysObj(W)), bad)
 	}
+}
+
+// splitTopLevelAnd splits a printed condition "(A && B)" at its top-level && operators.
+func splitTopLevelAnd(s string) []string {
+	s = strings.TrimSpace(s)
+	for len(s) >= 2 && s[0] == '(' && matchingParen(s, 0) == len(s)-1 {
+		s = strings.TrimSpace(s[1 : len(s)-1])
+	}
+	var out []string
+	depth, start := 0, 0
+	for i := 0; i < len(s); i++ {
+		switch s[i] {
+		case '(', '[':
+			depth++
+		case ')', ']':
+			depth--
+		case '&':
+			if depth == 0 && i+1 < len(s) && s[i+1] == '&' {
+				out = append(out, strings.TrimSpace(s[start:i]))
+				start = i + 2
+				i++
+			}
+		}
+	}
+	out = append(out, strings.TrimSpace(s[start:]))
+	var flat []string
+	for _, p := range out {
+		if len(p) >= 2 && p[0] == '(' && matchingParen(p, 0) == len(p)-1 && strings.Contains(p, "&&") {
+			flat = append(flat, splitTopLevelAnd(p)...)
+		} else {
+			flat = append(flat, p)
+		}
+	}
+	return flat
+}
+
+func matchingParen(s string, i int) int {
+	depth := 0
+	for j := i; j < len(s); j++ {
+		switch s[j] {
+		case '(':
+			depth++
+		case ')':
+			depth--
+			if depth == 0 {
+				return j
+			}
+		}
+	}
+	return -1
 }
 
 func sortedKeysObj(m map[string]types.Object) []string {
